@@ -238,6 +238,7 @@ func init() {
 			p.ruleAccelTables(c, effects(p))
 			p.ruleDerivedAttributes(c)
 			p.ruleE8(c, "(*geometry.baseSeries).NumSegments", "(*geometry.baseSeries).Empty")
+			p.ruleCyclicNeighbours(c)
 		},
 	})
 	register(&PropertyDef{
@@ -315,6 +316,7 @@ func init() {
 			p.ruleE8(c, "(*geometry.baseSeries).NumSegments", "(*geometry.baseSeries).Empty", "geometry.processPoints#entry-guard")
 			p.ruleDerivedAttributes(c)
 			p.ruleConvexGate(c)
+			p.ruleCyclicNeighbours(c)
 			p.ruleConvexFSM(c)
 			c.Exhaustive = true
 		},
